@@ -10,6 +10,7 @@ import JinjaV.Wire.Sandbox
 import JinjaV.Wire.Undefined
 import JinjaV.Wire.Path
 import JinjaV.Wire.Native
+import JinjaV.Wire.FiltColl
 
 open JinjaV
 
@@ -25,6 +26,7 @@ def dispatch (line : String) : Sx :=
     | "macro" => Wire.Macro.handle args
     | "sbx" => Wire.Sandbox.handle args
     | "undef" => Wire.Undefined.handle args
+    | "filt" => Wire.FiltColl.handle args
     | "native" => Wire.Native.handle args
     | "path-split" => Wire.Path.handleSplit args
     | "path-join" => Wire.Path.handleJoin args
